@@ -5,6 +5,7 @@ import (
 	"encoding/json"
 	"fmt"
 	"time"
+	"unicode/utf8"
 
 	"github.com/pkg/errors"
 
@@ -198,6 +199,17 @@ func (base *OpBase) Validate(op Operation, opType OperationType) error {
 	}
 	if len(base.Nonce) < 20 {
 		return fmt.Errorf("nonce is too small")
+	}
+
+	// the JSON encoder replaces the bytes that are not valid UTF-8: what is stored would differ
+	// from what has been accepted
+	for key, val := range base.Metadata {
+		if !utf8.ValidString(key) {
+			return fmt.Errorf("metadata key is not valid UTF-8")
+		}
+		if !utf8.ValidString(val) {
+			return fmt.Errorf("metadata value is not valid UTF-8")
+		}
 	}
 
 	return nil
